@@ -359,6 +359,15 @@ def Db.run (db : Db) : List DbOp → Db × List DbRes
     let y := Db.run x.1 ops
     (y.1, x.2 :: y.2)
 
+/-- successive transactions made through one server handle (each list = the calls of one
+    `DatabaseCallback`): the database persists from one to the next -/
+def Db.runAll (db : Db) : List (List DbOp) → Db × List DbRes
+  | [] => (db, [])
+  | tx :: rest =>
+    let x := db.run tx
+    let y := Db.runAll x.1 rest
+    (y.1, x.2 ++ y.2)
+
 /-! ## The request handler built from the database (`RequestHandlerWrapper`) -/
 
 /-- the application's `WriteHandler`: `none` = the C callback pointer is null.  A callback sees
@@ -619,6 +628,110 @@ def forwardedFilter (_ : ServerCtor) (callers : Filter.AddressFilter) : Filter.A
 /-- is a peer served by a server created through constructor `c` with filter `f`? -/
 def served (c : ServerCtor) (f : Filter.AddressFilter) (peer : Filter.Addr) : Bool :=
   (forwardedFilter c f).matches peer
+
+/-! ## Caller-owned objects handed to several calls
+
+  A C caller owns the lists, filters and maps it creates until it destroys them, and it may hand
+  the same object to any number of calls.  A call therefore depends on the VALUE of each argument
+  object only, and (with one documented exception) leaves the object as it found it.  The
+  functions below return, next to what the call uses, the object as the call leaves it; the
+  correspondence runs of `ffi reuse …` thread the objects through them. -/
+
+/-- a `BitList` / `RegisterList` of the caller: its current contents -/
+structure ListObj (α : Type) where
+  items : List α
+deriving DecidableEq, Repr
+
+/-- EXPECTED `rodbus_client_channel_write_multiple_{coils,registers}`: the values are COPIED into
+    the request (`items.inner.clone()`); returns the values of the request and the caller's list
+    afterwards -/
+def ListObj.submit {α : Type} (l : ListObj α) : List α × ListObj α := (l.items, l)
+
+/-- successive submissions of ONE list object to the given start addresses: the
+    `(start, values)` of each request in order, and the object afterwards -/
+def ListObj.submitAll {α : Type} (l : ListObj α) : List Nat → List (Nat × List α) × ListObj α
+  | [] => ([], l)
+  | s :: rest =>
+    let x := l.submit
+    let y := x.2.submitAll rest
+    ((s, x.1) :: y.1, y.2)
+
+/-- the invocations seen by ONE callback context that was handed (by value, as part of equal
+    callback structs) to several calls: each call fires on its own -/
+def Fired.merge (a b : Fired) : Fired :=
+  { complete := a.complete + b.complete, failure := a.failure + b.failure,
+    destroy := a.destroy + b.destroy, result := a.result ++ b.result }
+
+def fireAll (calls : List (Submit × TaskEnd)) : Fired :=
+  calls.foldl (fun acc c => acc.merge (fire c.1 c.2)) {}
+
+/-- EXPECTED server constructors: the filter object is CONVERTED (`filter.into()` clones the
+    set), so a server keeps the value the object had when the constructor ran; returns the
+    server's filter and the caller's object afterwards -/
+def snapshotFilter (c : ServerCtor) (f : Filter.AddressFilter) : Filter.AddressFilter × Filter.AddressFilter :=
+  (forwardedFilter c f, f)
+
+/-- a `DeviceMap` of the caller: unit ids in registration order, each with the database its
+    configuration callback produced -/
+structure DeviceMap where
+  units : List (Nat × Db) := []
+deriving DecidableEq, Repr
+
+/-- `rodbus_device_map_add_endpoint`: a unit id that is taken is refused, the configuration
+    callback of a refused registration does not run (its database is never built); returns the
+    flag, how often the configuration callback ran, and the map afterwards -/
+def DeviceMap.addEndpoint (m : DeviceMap) (u : Nat) (configure : Db → Db) : Bool × Nat × DeviceMap :=
+  if m.units.any (·.1 = u) then (false, 0, m) else (true, 1, ⟨m.units ++ [(u, configure {})]⟩)
+
+/-- EXPECTED (documented: "map of endpoints which is emptied upon passing to this function"):
+    a server constructor MOVES the endpoints into the server; returns the server's units and the
+    caller's map afterwards -/
+def DeviceMap.createServer (m : DeviceMap) : DeviceMap × DeviceMap := (m, ⟨[]⟩)
+
+def DeviceMap.lookup (m : DeviceMap) (u : Nat) : Option Db := (m.units.find? (·.1 = u)).map (·.2)
+
+/-- the object a control call (`enable`, `disable`, `set_decode_level`, `update_database`, …) is
+    made on -/
+inductive CtlTarget
+  | live          -- a valid object whose task runs
+  | null          -- a null pointer
+  | closed        -- a channel whose task has ended (runtime destroyed)
+  | withinAsync   -- a blocking call made from inside an asynchronous context
+deriving DecidableEq, Repr
+
+/-- the source error of a control call, as a row key of `expectedParamErrors` (`none` = success;
+    a null pointer is reported before anything is converted) -/
+def CtlTarget.source : CtlTarget → Option (String × String)
+  | .live => none
+  | .null => none
+  | .closed => some ("FfiChannelError", "ChannelClosed")
+  | .withinAsync => some ("RuntimeError", "CannotBlockWithinAsync")
+
+/-- EXPECTED `ParamError` of a control call; the decode level (or any other setting) handed to
+    it plays no part -/
+def CtlTarget.returnCode (t : CtlTarget) : String :=
+  match t with
+  | .null => Submit.nullArgument.returnCode
+  | t =>
+    match t.source with
+    | none => Submit.accepted.returnCode
+    | some (ty, v) => ((expectedParamErrors.find? fun r => r.1 = ty ∧ r.2.1 = v).map (·.2.2)).getD "?"
+
+/-- `rodbus_server_update_database`: the unit must exist, else the callback is not invoked; the
+    callback struct is dropped (its `on_destroy` runs) exactly once either way.
+    Returns (ParamError, invocations, destructions). -/
+def updateDatabase (server : CtlTarget) (unitExists : Bool) : String × Nat × Nat :=
+  match server with
+  | .null => (Submit.nullArgument.returnCode, 0, 1)
+  | _ => if unitExists then ("Ok", 1, 1) else ("InvalidUnitId", 0, 1)
+
+/-- what the C iterator handed to a read completion yields on successive `next` calls: the items
+    in order, then null for ever (`none`) -/
+def iterNext {α : Type} (items : List α) (k : Nat) : Option α := items[k]?
+
+/-- the first `take` results of `next` -/
+def iterTake {α : Type} (items : List α) (take : Nat) : List (Option α) :=
+  (List.range take).map (iterNext items)
 
 /-! ## Lock model for transactions and client requests
 
